@@ -21,7 +21,7 @@ def unescape_tla_string(s):
 
 
 def write_mc(workdir, name, cfgs, invariants=(), extra_defs="", keep_obs=True, extends=("Callbag",),
-             print_beh=True, constraint=None):
+             print_beh=True, constraint=None, nthr=0, spec="Spec", action_constraint=None):
     """cfgs: one scenario cfg or a list of them (the model picks one per behaviour: variable ci)"""
     if isinstance(cfgs, dict):
         cfgs = [cfgs]
@@ -37,8 +37,10 @@ def write_mc(workdir, name, cfgs, invariants=(), extra_defs="", keep_obs=True, e
     mod.append("====")
     with open(os.path.join(workdir, name + ".tla"), "w") as f:
         f.write("\n".join(mod) + "\n")
-    c = ["SPECIFICATION Spec", "CONSTANTS", "  CFGS <- CFGSv", f"  KeepObs = {'TRUE' if keep_obs else 'FALSE'}",
-         "  defaultInitValue = defaultInitValue", "CHECK_DEADLOCK FALSE"]
+    c = [f"SPECIFICATION {spec}", "CONSTANTS", "  CFGS <- CFGSv", f"  KeepObs = {'TRUE' if keep_obs else 'FALSE'}",
+         f"  NThr = {nthr}", "  defaultInitValue = defaultInitValue", "CHECK_DEADLOCK FALSE"]
+    if action_constraint:
+        c.append(f"ACTION_CONSTRAINT {action_constraint}")
     if print_beh:
         c.append("INVARIANT PrintBeh")
     for inv in invariants:
